@@ -476,8 +476,10 @@ def cell_signature(cell):
 
 # Finding F3 (design_notes/C12.md): in the threaded mailbox processor a gap / overlap in the LAST chunk of
 # the target is detected by the reader only after a lagging saver may already have seen the end of the
-# stream (Mailbox._can_fetch lets the source run one message ahead).  Whether it fires depends on thread
-# timing, so these cells are judged separately and never compared with the (single-thread) model's storage.
+# stream (Mailbox._can_fetch let the source run one message ahead; repaired in /repo by ede7cda).  Whether it
+# fired depended on thread timing, so these cells are judged separately (exception present, target not left in
+# storage) and never compared with the (single-thread) model's storage; known_findings lists it as fixed, so a
+# reappearance is a VIOLATION.
 RACE_SIG = {"vk_class": "gap/overlap", "pos": "last", "proc": "threaded_mailbox"}
 
 
